@@ -18,6 +18,7 @@ check('C19', title='Inbound messages reach the application only when in sequence
       rule='history = prefix events from {in-hb, in-app, in-app-ahead, idle-tick(40 s), send, in-gapfill} up to the depth bound, optionally followed by one probe; distinct = new canonical session state '
            '(state, both numbers, outstanding resend, deliveries, idle seconds); probes are judged in every distinct state',
       assumptions=_ASSUME,
+      budget={'quick': 200, 'thorough': 1600},
       parts=[dict(name='bfs', harness='session_in', variant='san', quick=dict(args=['depth=3'], deadline=100), thorough=dict(args=['depth=5'], deadline=800)),
              # inbound in-sequence application messages handed to two sessions (one reader thread each, each also sending) under the schedule search of C25:
              # every message reaches its own session's application exactly once, in order, whatever the interleaving
